@@ -42,6 +42,7 @@ MIN_REACH = {
     "heatmap_cells_compared": {"quick": 500, "thorough": 8000},
     "heatmap_norms_compared": {"quick": 15, "thorough": 250},
     "explicit_colour_limits": {"quick": 8, "thorough": 150},
+    "auto_plots_with_x_values_per_line_and_square_shape": {"quick": 3, "thorough": 50},
 }
 TIME_BUDGET = {"quick": 500, "thorough": 3400}
 KINDS = ["lineplot", "lineplot", "scatter", "scatter", "histogram", "heatmap", "lineplot_grid", "scatter_grid", "heatmap_grid",
@@ -63,6 +64,12 @@ def cases(ctx):
              "nr": rng.randint(1, 3), "nc": rng.randint(1, 3), "use_row": rng.random() < 0.7, "use_col": rng.random() < 0.7,
              "uniform": rng.random() < 0.8, "xvar": rng.random() < 0.3, "err": rng.choice([None, None, "y", "x", "xy"]),
              "dimorder_seed": rng.randint(0, 999)}
+        if kind in ("auto_lineplot", "auto_scatter") and c["dseed"] % 5 < 2:
+            # x values of its own for every line (2-D x of the same shape as y): nothing ambiguous about the orientation
+            # then, also when there are as many lines as points per line
+            c["x2d"] = True
+            if c["dseed"] % 3 and nz >= 2:
+                c["nx"] = nz
         o = {}
         r = rng.random()
         if r < 0.3:
@@ -422,6 +429,15 @@ def judge_line_axes(ctx, ax, ds, case, o, xname, ynames, zvals, kind, labels, wa
     return bad
 
 
+def _auto_x(case, ds):
+    """The x argument of auto_lineplot / auto_scatter: the shared 1-D axis, or (x2d) a row of its own per line."""
+    x = np.asarray(ds["x"].values, dtype=float)
+    if not case.get("x2d"):
+        return x
+    nz = ds.sizes["z"]
+    return x[None, :] + 0.25 * np.arange(nz)[:, None]
+
+
 def hist_heights(poly):
     xy = np.asarray(poly.get_xy(), dtype=float)
     n = (len(xy) - 1) // 4          # stepfilled polygon: 2n+2 points up, 2n-1 back
@@ -544,10 +560,10 @@ def run_case(ctx, case):
                 fig = xyzpy.heatmap(ds, "x", "z", "y", **hk)
             elif base == "auto_lineplot":
                 o = {k: v for k, v in o.items() if k in ("colors", "colormap", "colormap_reverse", "markers", "legend")}
-                fig = xyzpy.auto_lineplot(np.asarray(ds["x"].values, dtype=float), ds["y"].transpose("z", "x").values, **o)
+                fig = xyzpy.auto_lineplot(_auto_x(case, ds), ds["y"].transpose("z", "x").values, **o)
             elif base == "auto_scatter":
                 o = {k: v for k, v in o.items() if k in ("colors", "colormap", "colormap_reverse", "legend")}
-                fig = xyzpy.auto_scatter(np.asarray(ds["x"].values, dtype=float), ds["y"].transpose("z", "x").values, **o)
+                fig = xyzpy.auto_scatter(_auto_x(case, ds), ds["y"].transpose("z", "x").values, **o)
             elif base == "auto_histogram":
                 fig = xyzpy.auto_histogram(ds["y"].transpose("z", "x").values, bins=kw.get("bins", 30))
             elif base == "auto_heatmap":
@@ -639,8 +655,15 @@ def run_case(ctx, case):
                     bad.append("colour-mapped plot with %d series has neither legend nor colour bar" % nser)
     elif base in ("auto_lineplot", "auto_scatter"):
         import xarray as xr
-        ads = xr.Dataset({"y": (("z", "x"), ds["y"].transpose("z", "x").values)},
-                         coords={"x": np.asarray(ds["x"].values, dtype=float), "z": np.arange(len(zvals))})
+        if case.get("x2d"):
+            ads = xr.Dataset({"y": (("z", "_x"), ds["y"].transpose("z", "x").values), "x": (("z", "_x"), _auto_x(case, ds))},
+                             coords={"z": np.arange(len(zvals))})
+            ctx.count("auto_plots_with_x_values_per_line")
+            if ds.sizes["x"] == len(zvals):
+                ctx.count("auto_plots_with_x_values_per_line_and_square_shape")
+        else:
+            ads = xr.Dataset({"y": (("z", "x"), ds["y"].transpose("z", "x").values)},
+                             coords={"x": np.asarray(ds["x"].values, dtype=float), "z": np.arange(len(zvals))})
         b = judge_line_axes(ctx, data_axes(fig)[0], ads, case, o, "x", ["y"], list(range(len(zvals))),
                             "scatter" if base == "auto_scatter" else "lineplot", [str(i) for i in range(len(zvals))], want_colors, [])
         bad.extend(b[:2])
